@@ -7,7 +7,9 @@
 EXTENDS Integers, Sequences, FiniteSets, TLC, Json
 Bodies == {"cmp", "or", "not", "implies", "any"}
 NameForms == {"none", "plain", "indexed"}
-Iterations == {"none", "one", "two"}
+\* (arr .. zip: the binder forms - a value of an array, a pair from enumerate, a tuple binder with ONE name (it takes
+\* the first component), three names over weighted edges, a pair from zip)
+Iterations == {"none", "one", "two", "arr", "enum", "tuple1", "edgew", "zip"}
 VARIABLES body, nameform, iter, phase
 vars == <<body, nameform, iter, phase>>
 Init == body = "cmp" /\ nameform = "none" /\ iter = "none" /\ phase = "body"
@@ -19,7 +21,7 @@ Spec == Init /\ [][Next]_vars
 
 \* the index expressions of the row: literal when the row is not iterated
 I == IF iter = "none" THEN "0" ELSE "i"
-J == IF iter = "two" THEN "j" ELSE "1"
+J == IF iter \in {"two", "zip"} THEN "j" ELSE "1"
 P == "p_" \o I \o "_" \o J
 Q == "q_" \o I \o "_" \o J
 BodyText == CASE body = "cmp" -> P \o " + " \o Q \o " <= 1"
@@ -28,9 +30,12 @@ BodyText == CASE body = "cmp" -> P \o " + " \o Q \o " <= 1"
               [] body = "implies" -> P \o " -> (" \o Q \o " or not " \o P \o ")"
               [] body = "any" -> "any { " \o P \o ", " \o Q \o " }"
 NameText == CASE nameform = "none" -> "" [] nameform = "plain" -> "cover: "
-              [] nameform = "indexed" -> (IF iter = "none" THEN "cover_0: " ELSE IF iter = "one" THEN "cover_i: " ELSE "cover_i_j: ")
+              [] nameform = "indexed" -> (IF iter = "none" THEN "cover_0: " ELSE IF iter \in {"two", "zip"} THEN "cover_i_j: " ELSE "cover_i: ")
 IterText == CASE iter = "none" -> "" [] iter = "one" -> " for i in 0..3" [] iter = "two" -> " for i in 0..3, j in 0..2"
+              [] iter = "arr" -> " for i in S" [] iter = "enum" -> " for (v, i) in enumerate(S)" [] iter = "tuple1" -> " for (i) in enumerate(S)"
+              [] iter = "edgew" -> " for (u, v, i) in edges(G)" [] iter = "zip" -> " for (i, j) in zip(S, T)"
 Text == "max sum(i in 0..3, j in 0..2) { p_i_j + 2 * q_i_j }\ns.t.\n    " \o NameText \o BodyText \o IterText
-        \o "\n    sum(i in 0..3, j in 0..2) { p_i_j + q_i_j } <= 4\ndefine\n    p_i_j, q_i_j as Boolean for i in 0..3, j in 0..2"
+        \o "\n    sum(i in 0..3, j in 0..2) { p_i_j + q_i_j } <= 4\n    sum((i) in enumerate(S)) { p_i_0 } + sum((u, v, i) in edges(G)) { q_i_1 } <= 3"
+        \o "\nwhere\n    let S = [0, 2, 3]\n    let T = [1, 0, 1]\n    let G = Graph {\n        A -> [B: 1, C: 2],\n        B -> [C: 3],\n        C\n    }\ndefine\n    p_i_j, q_i_j as Boolean for i in 0..3, j in 0..2"
 Emit == phase = "done" => PrintT(<<"CASE", ToJson([text |-> Text])>>)
 =============================================================================
